@@ -45,6 +45,34 @@ CFG = {
         "Swat4.C01.gameKey_eq",
         "Swat4.BrowserReqBridge.newRequest_eq",
         "Swat4.BrowserReqBridge.facts_agree",
+        # C01 ∘ C03: the handler as one function of the request bytes and the registry
+        "Swat4.C01.browser_end_to_end",
+        "Swat4.C01.browser_end_to_end_any_order",
+        "Swat4.C01.browser_end_to_end_listing",
+        "Swat4.C01.browser_lists_only_matching",
+        "Swat4.C01.browser_lists_all_matching",
+        "Swat4.C01.browser_malformed_filter_lists_all_live",
+        "Swat4.C01.keeps_eq_matching",
+        "Swat4.C01.listing_eq_matching",
+        "Swat4.C01.listing_perm_matching",
+        "Swat4.C01.clausesOf_parsed",
+        "Swat4.C01.clausesOf_text",
+        "Swat4.C01.clausesOf_malformed",
+        "Swat4.C01.selected_blank",
+        "Swat4.C01.expectedList_entries",
+        "Swat4.C01.readBuffer_eq",
+        "Swat4.BrowserE2E.schemas_agree",
+        "Swat4.BrowserE2E.wellTyped_infoVals",
+        "Swat4.BrowserE2E.paramValue_infoVals",
+        "Swat4.BrowserE2E.entryOf_eq",
+        "Swat4.BrowserE2E.listServers_eq_filter_keeps",
+        "Swat4.BrowserE2E.listStored_row",
+        "Swat4.BrowserE2E.listStored_perm",
+        "Swat4.BrowserE2E.browserHandle_ok",
+        "Swat4.BrowserE2E.browserHandle_error",
+        "Swat4.C01.E2EExample.plaintext_decodes",
+        "Swat4.C01.E2EExample.reply_decodes",
+        "Swat4.C01.E2EExample.reply_decodes_malformed",
     ],
     "shards": (4, 16),
     "nontrivial": _c01_nontrivial,
@@ -63,16 +91,18 @@ CFG = {
     "assumptions": [
         "the SDK server-list framing rules (Spec/ServerList.lean) and the SDK cipher (Spec/GOA.lean) are transcriptions from knowledge of the GameSpy SDK; its sources are not available offline",
         "no listed server has the address 255.255.255.255 (the SDK's end-of-list marker); addr.New rejects it (C17)",
-        "the selection (live, master status, filter) is property C03: C01_main takes the selected list as a parameter; the harness plants only fresh master-status records and sends an empty filter",
+        "C01_main takes the selected list as a parameter; browser_end_to_end composes it with C03's selection (BrowserE2E.browserHandle: parse, filter string -> query, listservers over a registry of Stored servers, pack, encrypt). The C01 harness plants only fresh master-status records and sends an empty filter; the real handler with non-empty filters over TCP is exercised by C03's `blist` stream",
+        "browser_end_to_end: a stored server is BrowserE2E.Stored = the filter model's Record (status, refreshedAt, named Info; addr an opaque key) plus Addr.IP, Addr.Port, QueryPort; the Info values packServers renders are computed from the record the filter is evaluated on (infoVals), assuming the record has the details.Info shape (Shaped Facts.infoSchema: Go's typing) — the filter model's and the browser model's schemas are proved equal (schemas_agree)",
         "the handler's single Read into a 2048-byte buffer is modelled as 'the first 2048 bytes sent' (C01_main_bounded / C01_oversize_no_reply); TCP segmentation (a request delivered in several segments is cut at the first by the same code), IPv6 peers and JSON storage of info strings (invalid UTF-8 is coerced on storage; the check reads the registry back before the request) are outside the model",
-        "listing order is Go map order: the model is run in the order the reply lists the servers; the oracle compares entries as multisets",
+        "listing order is Go map order: the model is run in the order the reply lists the servers; the oracle compares entries as multisets. In browser_end_to_end_any_order and the corollaries the order is a parameter `order` assumed only to permute the repository's result; browser_end_to_end is the instance order = id (registry order, the filter model's order)",
     ],
     "trusted_base": COMMON_TRUSTED + [
         "Spec/ServerList.lean (sdkDecode, encodeReq/WfReq) and Spec/ServerListExpected.lean (expectedList) as the meaning of 'decodes to exactly the selected servers'",
+        "Spec/FilterSpec.lean (`selected`, `sat`, `Clause`) as the meaning of 'the servers the request's filter selects' in browser_end_to_end (shared with C03)",
         "generated Facts.lean section `browsing` (whitelist via go/ast cross-checked against the compiled filter.IsQueryField, field cap, minimum length, Info schema via reflection with params.GetParamName)",
     ],
     "manifest": {
-        "text": "Lean theorem C01_main: for every well-formed list request (encodeReq/WfReq) with 1..MaxAllowedNumberOfFields known fields, every requester address, every list of selected servers (well-typed records, none with the all-ones address) and every 23 cipher header draws, the model of Handler.process replies, and the reply decrypted by the SDK reference cipher (C02) and decoded by the independently written SDK framing decoder is exactly the promised list: requester IPv4 and port mod 65536, the known fields in request order, one entry per selected server with IPv4, uint16 query port and the stored value of every declared field (ints decimal, bools 0/1, empty for a missing field, NUL bytes dropped), end marker, nothing after it. C01_main_bounded: the same with the handler's 2048-byte read explicit, for requests of at most 2048 bytes; C01_oversize_no_reply: a well-formed request longer than 2048 bytes fails NewRequest's length test (ErrInvalidRequestFormat) and gets no reply. sdkDecode_pack: the same for packServers alone, any <=255 NUL-free field names and any schema with distinct names; sdkDecode_pack_marshalled: without the typing hypothesis (servers whose Info does not marshal are skipped). parse_encodeReq: NewRequest on a well-formed request filters through the whitelist before the cap, in request order. parse_total: NewRequest never indexes/slices out of range and its field loop terminates, for every input. BrowserReqBridge.newRequest_eq: the model of NewRequest used here and the independently written one used by C06 (BrowserReq06.newRequest) return the same outcome class and field list on every byte string. facts_ok/facts_parse_ok: the side conditions on the generated whitelist, cap, minimum length and Info schema. The model is tied to the code by differential runs of browsing.NewRequest and of the real browser.Handler over loopback TCP against registries planted through the real repository; the SDK decoder is also run on the Go bytes.",
+        "text": "Lean theorem C01_main: for every well-formed list request (encodeReq/WfReq) with 1..MaxAllowedNumberOfFields known fields, every requester address, every list of selected servers (well-typed records, none with the all-ones address) and every 23 cipher header draws, the model of Handler.process replies, and the reply decrypted by the SDK reference cipher (C02) and decoded by the independently written SDK framing decoder is exactly the promised list: requester IPv4 and port mod 65536, the known fields in request order, one entry per selected server with IPv4, uint16 query port and the stored value of every declared field (ints decimal, bools 0/1, empty for a missing field, NUL bytes dropped), end marker, nothing after it. C01_main_bounded: the same with the handler's 2048-byte read explicit, for requests of at most 2048 bytes; C01_oversize_no_reply: a well-formed request longer than 2048 bytes fails NewRequest's length test (ErrInvalidRequestFormat) and gets no reply. sdkDecode_pack: the same for packServers alone, any <=255 NUL-free field names and any schema with distinct names; sdkDecode_pack_marshalled: without the typing hypothesis (servers whose Info does not marshal are skipped). parse_encodeReq: NewRequest on a well-formed request filters through the whitelist before the cap, in request order. parse_total: NewRequest never indexes/slices out of range and its field loop terminates, for every input. BrowserReqBridge.newRequest_eq: the model of NewRequest used here and the independently written one used by C06 (BrowserReq06.newRequest) return the same outcome class and field list on every byte string. browser_end_to_end (C01 composed with C03; Lemmas/BrowserEndToEnd.lean: browserHandle = 2048-byte read, NewRequest, query of the request's filter string (blank when empty or rejected), listservers with status master over a registry of stored servers, packServers, Encrypt): for every well-formed request r of at most 2048 bytes with 1..MaxAllowedNumberOfFields known fields, every registry, clock, liveness, requester and header draws (matching records of the details.Info shape, none with the all-ones address) the handler replies and the reply decrypts+decodes to exactly expectedList for the requester, r's known fields in order and the stored servers recs.filter(matching) — status master, refreshed at or after now-liveness, every clause of r.filter satisfied (C03's `selected`) — in registry order, with the stored field values (entryOf_eq: looked up by name in the record the filter read). browser_end_to_end_any_order: the same for any order the repository returns its result in (Go map iteration): the listing is a permutation of recs.filter(matching). Corollaries for any order: browser_lists_only_matching (every decoded entry is the entry of a matching stored server), browser_lists_all_matching (every matching server's entry is present, the entry count equals the number of matching servers, entry multiplicities agree, exactly once when matching servers have distinct entries), browser_malformed_filter_lists_all_live (a rejected filter string lists all live master servers). E2EExample.*: a concrete four-server registry and filtered request evaluated by the kernel (plaintext decode computed; the cipher step via the theorem). facts_ok/facts_parse_ok: the side conditions on the generated whitelist, cap, minimum length and Info schema. The model is tied to the code by differential runs of browsing.NewRequest and of the real browser.Handler over loopback TCP against registries planted through the real repository; the SDK decoder is also run on the Go bytes.",
         "level_note": "Trusted: Lean kernel; axioms propext, Quot.sound, Classical.choice; the SDK framing/cipher references as the definition of 'stock client'; the finite differential run as evidence that Model/Browsing.lean behaves like the Go code; generated Facts.lean.",
         "technique": "Lean 4 proof (round-trip by structural induction with scanner lemmas; composition with C02) + differential correspondence",
         "design_ref": "DESIGN.md §5 C01",
